@@ -409,6 +409,8 @@ type c11Cell struct {
 	call, step, cause string
 }
 
+func (c c11Cell) String() string { return c.call + "/" + c.step + "/" + c.cause }
+
 func C11Matrix() []c11Cell {
 	var cells []c11Cell
 	calls := []string{"publish1", "publish2", "subscribe", "unsubscribe", "ping"}
@@ -432,6 +434,17 @@ func C11Matrix() []c11Cell {
 	}
 	for _, ca := range []string{"cancel", "localclose", "peereof", "peerreset"} {
 		cells = append(cells, c11Cell{"disconnect", "before", ca})
+	}
+	// Connect / Disconnect of the reconnecting client
+	for _, st := range []string{"dialparked", "connack", "backoff"} {
+		for _, ca := range []string{"cancel", "deadline"} {
+			cells = append(cells, c11Cell{"rc-connect", st, ca})
+		}
+	}
+	for _, st := range []string{"connected", "backoff", "dialparked", "connack"} {
+		for _, ca := range []string{"none", "deadline"} {
+			cells = append(cells, c11Cell{"rc-disconnect", st, ca})
+		}
 	}
 	return cells
 }
@@ -480,7 +493,61 @@ func applyCause(sc *Scenario, cause string, t int64, target int, r *Rng) {
 	}
 }
 
+// genC11ReconnCell: Connect / Disconnect of the reconnecting client in a
+// given phase of its loop.
+func genC11ReconnCell(r *Rng, cell c11Cell) *Scenario {
+	sc := &Scenario{}
+	cfg := &sc.Cfg
+	cfg.Client, cfg.ClientID = "reconnect", "cid"
+	cfg.LatC2BUs, cfg.LatB2CUs, cfg.DialLatUs = 100, 100, 50
+	cfg.ReconnBaseUs, cfg.ReconnMaxUs = 2000, 8000
+	cfg.BrokerMethod = "A"
+	cfg.InitIDs = []uint32{0}
+	sc.Ops = append(sc.Ops, Op{AtUs: 0, Actor: 0, Kind: "connect"})
+	tc := int64(1000) // when the cause lands
+	switch cell.step {
+	case "dialparked":
+		sc.Faults = append(sc.Faults, Fault{Kind: "dialStall", Conn: 1})
+	case "connack":
+		sc.Faults = append(sc.Faults, Fault{Kind: "connackNever", Conn: 1})
+	case "backoff":
+		sc.Faults = append(sc.Faults, Fault{Kind: "dialErr", Conn: 1})
+	case "connected":
+	}
+	if cell.call == "rc-connect" {
+		if cell.cause == "cancel" {
+			sc.Ops = append(sc.Ops, Op{AtUs: tc, Actor: -1, Kind: "cancel", Target: 0})
+		} else {
+			sc.Ops[0].CtxTimeoutUs = tc
+		}
+	} else {
+		// a first connection must exist before Disconnect may be called (the
+		// retrying client's Disconnect before SetClient is documented misuse):
+		// phases other than "connected" are reached on the second attempt
+		if cell.step != "connected" {
+			for i := range sc.Faults {
+				sc.Faults[i].Conn = 2
+			}
+			sc.Faults = append(sc.Faults, Fault{Kind: "cutAt", Conn: 1, AtUs: 600})
+			tc = 600 + 2000 + 300 // inside attempt 2 (dial parked / waiting CONNACK)
+			if cell.step == "backoff" {
+				tc = 600 + 2000 + 50 + 1000 // inside the second back-off
+			}
+		}
+		op := Op{AtUs: tc, Actor: 1, Kind: "disconnect"}
+		if cell.cause == "deadline" {
+			op.CtxTimeoutUs = 700
+		}
+		sc.Ops = append(sc.Ops, op)
+	}
+	sc.HorizonUs, sc.EndUs = 20000, 60000
+	return sc
+}
+
 func genC11Cell(r *Rng, cell c11Cell) *Scenario {
+	if cell.call == "rc-connect" || cell.call == "rc-disconnect" {
+		return genC11ReconnCell(r, cell)
+	}
 	sc := &Scenario{Cfg: baseCfg(r)}
 	cfg := &sc.Cfg
 	cfg.HoldAcks = true
@@ -528,6 +595,9 @@ func genC11Cell(r *Rng, cell c11Cell) *Scenario {
 
 func genC11(r *Rng, prop string) *Scenario {
 	cells := C11Matrix()
+	if r.matrixCell >= 0 && r.matrixCell < len(cells) {
+		return genC11Cell(r, cells[r.matrixCell])
+	}
 	if r.chance(0.5) {
 		// single cell, randomised details
 		return genC11Cell(r, cells[r.IntN(len(cells))])
